@@ -119,6 +119,7 @@ class Agg:
         self.shards = 0
         self.cpu_s = 0.0
         self.known = {}
+        self.audit = []
 
     def add(self, d, count_cut=False):
         self.paths += d["paths"] - d["cut"]
@@ -137,6 +138,8 @@ class Agg:
         self.violations.extend(d["violations"])
         for kid, vals in d.get("known", {}).items():
             self.known.setdefault(kid, vals)
+        if len(self.audit) < 120:
+            self.audit.extend(d.get("audit", [])[:2])
         if not d["exhausted"]:
             self.exhausted = False
         self.funcs.update(tuple(f) for f in d["funcs"])
@@ -194,6 +197,75 @@ def explore_parallel(pool, pid, tier, h, deadline, seed, log):
         % (h.name, agg.paths, agg.shards, agg.queries, agg.solver_s, agg.cpu_s, t_exp - t0, time.time() - t0,
            "" if agg.exhausted and not agg.inconclusive else "  INCOMPLETE %s" % agg.inconclusive))
     return agg
+
+
+SCENARIO_PROPS = {"C%02d" % i for i in range(1, 15)}
+
+
+def second_solver_audit(items, log):
+    """re-decides a sample of the queries (path condition, and path condition + negated assertion) with
+    /usr/bin/z3 (4.8.12) and cvc5; any disagreement, error or unknown is reported"""
+    import shutil
+    import tempfile
+    res = {"queries": len(items), "solvers": {}, "disagreements": 0, "errors": 0, "failed": False}
+    if not items:
+        return res
+    tmp = tempfile.mkdtemp(prefix="verif-audit-")
+    try:
+        paths = []
+        for i, (text, want) in enumerate(items):
+            p = os.path.join(tmp, "q%d.smt2" % i)
+            with open(p, "w") as f:
+                f.write("(set-logic ALL)\n" + text + "\n")
+            paths.append((p, want))
+        solvers = [("z3-4.8.12", ["/usr/bin/z3", "-smt2", "-T:20"]), ("cvc5", ["cvc5", "--tlimit=20000"])]
+        for name, cmd in solvers:
+            if shutil.which(cmd[0]) is None:
+                res["solvers"][name] = "not installed"
+                continue
+            agree = dis = err = 0
+
+            def one(pw):
+                p, want = pw
+                try:
+                    r = subprocess.run(cmd + [p], capture_output=True, text=True, timeout=60)
+                    out = (r.stdout + r.stderr).strip()
+                except subprocess.TimeoutExpired:
+                    out = "timeout"
+                first = out.splitlines()[0].strip() if out else ""
+                return first, want, out
+            with cf.ThreadPoolExecutor(max_workers=NPROC) as ex:
+                for first, want, out in ex.map(one, paths):
+                    if "(error" in out or first not in ("sat", "unsat"):
+                        err += 1
+                    elif first == want:
+                        agree += 1
+                    else:
+                        dis += 1
+            res["solvers"][name] = {"agree": agree, "disagree": dis, "error_or_unknown": err}
+            res["disagreements"] += dis
+            res["errors"] += err
+        res["failed"] = res["disagreements"] > 0
+        log("  second-solver audit: %d queries, %s" % (len(items), res["solvers"]))
+    finally:
+        shutil.rmtree(tmp, ignore_errors=True)
+    return res
+
+
+def vloop_conformance(seed, n, log):
+    env = dict(os.environ)
+    env["PYTHONPATH"] = os.pathsep.join([HERE, REPO])
+    py = REPLAY_PY if os.path.exists(REPLAY_PY) else sys.executable
+    try:
+        r = subprocess.run([py, os.path.join(HERE, "env", "conformance.py"), str(seed + 1), str(n)], env=env,
+                           capture_output=True, text=True, timeout=600)
+        res = json.loads(r.stdout)
+    except Exception as e:
+        res = {"error": repr(e), "disagreements": ["could not run"]}
+    res["failed"] = bool(res.get("disagreements"))
+    log("  VLoop conformance vs the stock asyncio loop: %s/%s tie-free scenarios agree (%s skipped for ties)"
+        % (res.get("agree"), res.get("scenarios"), res.get("skipped_ties", 0)))
+    return res
 
 
 def source_hashes():
@@ -284,6 +356,8 @@ def main(argv=None):
         return do_replay(args.replay, quiet=args.quiet_replay)
     pid = args.pid.upper()
     tier = args.tier if args.tier in ("quick", "thorough") else "quick"
+    if tier == "thorough":
+        os.environ["VERIF_AUDIT"] = "1"
     seed = int(os.environ.get("VERIF_SEED", "0") or 0)
     mod = prop_module(pid)
     t_start = time.time()
@@ -371,6 +445,19 @@ def main(argv=None):
             else:
                 harness_error = (hh, v, path, out)
             break
+    trusted = {}
+    if tier == "thorough" and not new_violation and not harness_error and not args.only:
+        items = []
+        for a in aggs.values():
+            items += a.audit
+        trusted["second_solver_audit"] = second_solver_audit(items[:200], log)
+        if getattr(mod, "USES_VLOOP", False) or pid in SCENARIO_PROPS:
+            trusted["vloop_conformance"] = vloop_conformance(seed, 40, log)
+    elif tier == "quick" and pid == "C01" and not args.only:
+        trusted["vloop_conformance"] = vloop_conformance(seed, 16, log)
+    for k, v in trusted.items():
+        if v.get("failed"):
+            harness_error = harness_error or (Harness(k, None), {"what": k + " failed"}, "-", json.dumps(v)[:2000])
     wall = time.time() - t_start
     rc = EXIT_OK
     if new_violation:
@@ -386,7 +473,7 @@ def main(argv=None):
         log(out.strip()[-3000:])
         rc = EXIT_HARNESS
     if not args.no_evidence:
-        write_evidence(pid, tier, seed, mod, hs, aggs, wall, rc, known_lines, extra)
+        write_evidence(pid, tier, seed, mod, hs, aggs, wall, rc, known_lines, extra, trusted)
     vac = []
     for h in hs:
         a = aggs.get(h.name)
@@ -401,7 +488,7 @@ def main(argv=None):
     return rc
 
 
-def write_evidence(pid, tier, seed, mod, hs, aggs, wall, rc, known_lines, extra=None):
+def write_evidence(pid, tier, seed, mod, hs, aggs, wall, rc, known_lines, extra=None, trusted=None):
     tot = Agg()
     per = {}
     vacuous = []
@@ -464,6 +551,8 @@ def write_evidence(pid, tier, seed, mod, hs, aggs, wall, rc, known_lines, extra=
         },
         "assumptions": getattr(mod, "ASSUMPTIONS", []) + COMMON_ASSUMPTIONS,
     }
+    for k, v in (trusted or {}).items():
+        ev["coverage"][k] = v
     if extra is not None:
         ev["coverage"]["crosshair"] = extra["evidence"]
         ev["coverage"]["evaluations"] += extra["evaluations"]
